@@ -17,7 +17,7 @@ if note:
     conf += " (" + note + ")"
 meta = {
     "property": prop,
-    "round": 3 if name.endswith("c") else (2 if name.endswith("b") else 1),
+    "round": {"b": 2, "c": 3, "d": 4}.get(name[-1], 1),
     "breaks": a.get("summary", ""),
     "needs_to_manifest": a.get("needs", ""),
     "files": a.get("files", []),
